@@ -1,3 +1,4 @@
+mod contains;
 mod gen;
 mod hist;
 mod lang;
@@ -449,6 +450,17 @@ fn reobserve(a: &HashMap<String, String>) -> i32 {
                 e["de"] = o["de"].clone();
                 e["built"] = o["built"].clone();
             }
+            "contains" => {
+                let hay: Vec<u8> = serde_json::from_value(e["hay"].clone()).unwrap();
+                let needle: Vec<u8> = serde_json::from_value(e["needle"].clone()).unwrap();
+                let mut r = rng_from(11);
+                e["obs"] = contains::observe(&mut r, &hay, &needle);
+            }
+            "lit" => {
+                let chars: Vec<u32> = serde_json::from_value(e["chars"].clone()).unwrap();
+                let text = lit::text_of_chars(&chars).unwrap_or_default();
+                e["obs"] = lit::observe_lit(e["kind"].as_str().unwrap(), &text);
+            }
             "ser" | "rt" | "de" | "trunc" => {
                 serde_ctx::reobserve(&w.specs, &w.schemes, &mut e);
             }
@@ -762,6 +774,47 @@ fn replay_lit_cmd(a: &HashMap<String, String>) -> i32 {
     if bad > 0 { 1 } else { 0 }
 }
 
+fn replay_contains_cmd(a: &HashMap<String, String>) -> i32 {
+    let path = a.get("in").expect("--in");
+    let out = a.get("out").cloned().unwrap_or_else(|| "/dev/null".into());
+    quiet_panics();
+    let mut r = rng_from(7);
+    let f = BufReader::new(File::open(path).unwrap());
+    let mut ow = BufWriter::new(File::create(&out).unwrap());
+    let (mut n, mut bad, mut runs, mut simd) = (0u64, 0u64, 0u64, 0u64);
+    for line in f.lines() {
+        let line = line.unwrap();
+        if line.trim().is_empty() {
+            continue;
+        }
+        let v: Value = serde_json::from_str(&line).expect("vector json");
+        n += 1;
+        let hay: Vec<u8> = serde_json::from_value(v["hay"].clone()).unwrap();
+        let needle: Vec<u8> = serde_json::from_value(v["needle"].clone()).unwrap();
+        let o = contains::observe(&mut r, &hay, &needle);
+        if o["simd"] == true {
+            simd += 1;
+        }
+        let mut diffs = Vec::new();
+        for run in o["runs"].as_array().unwrap() {
+            runs += 1;
+            if run["out"] != "ok" {
+                diffs.push(format!("anchor {}: panic", run["anchor"]));
+            } else if run["res"] != v["exp"] {
+                diffs.push(format!("anchor {}: expected {} observed {} (simd={})", run["anchor"], v["exp"], run["res"], o["simd"]));
+            }
+        }
+        if !diffs.is_empty() {
+            bad += 1;
+            serde_json::to_writer(&mut ow, &json!({"vector": v, "src": format!("needle-len={} hay-len={}", needle.len(), hay.len()), "observed": o, "diffs": diffs})).unwrap();
+            ow.write_all(b"\n").unwrap();
+        }
+    }
+    ow.flush().unwrap();
+    println!("{}", serde_json::to_string(&json!({"vectors": n, "mismatches": bad, "runs": runs, "simd_cases": simd})).unwrap());
+    if bad > 0 { 1 } else { 0 }
+}
+
 fn replay_types_cmd(a: &HashMap<String, String>) -> i32 {
     let path = a.get("in").expect("--in");
     let out = a.get("out").cloned().unwrap_or_else(|| "/dev/null".into());
@@ -871,6 +924,20 @@ fn main() {
         "replay-reg" => replay_reg_cmd(&a),
         "replay-types" => replay_types_cmd(&a),
         "replay-lit" => replay_lit_cmd(&a),
+        "replay-contains" => replay_contains_cmd(&a),
+        "gen-contains" => {
+            let seed: u64 = a.get("seed").and_then(|s| s.parse().ok()).unwrap_or(1);
+            let n: usize = a.get("n").and_then(|s| s.parse().ok()).unwrap_or(1000);
+            let out = a.get("out").cloned().unwrap_or_else(|| ".".into());
+            let mut r = rng_from(seed);
+            quiet_panics();
+            let evs: Vec<Value> = (0..n).map(|k| contains::gen_event(&mut r, k as u64)).collect();
+            write_ndjson::<Value>(&format!("{out}/schemes.ndjson"), &[]);
+            write_ndjson::<Value>(&format!("{out}/ctxs.ndjson"), &[]);
+            write_ndjson(&format!("{out}/trace.ndjson"), &evs);
+            println!("{}", serde_json::to_string(&json!({"events": n})).unwrap());
+            0
+        }
         "gen-lit" => {
             let seed: u64 = a.get("seed").and_then(|s| s.parse().ok()).unwrap_or(1);
             let n: usize = a.get("n").and_then(|s| s.parse().ok()).unwrap_or(1000);
